@@ -33,7 +33,7 @@ STUB = ["wall clock", "uuid source", "file system under FileAdapter", "SdSimulat
 ASSUMPTIONS = ["automatic OPTIONS answers are Flask's own and excluded", "credential shapes that contain the token as a whole word are not sent (no verdict)",
                "states are sampled, the intruder product per state is complete"]
 FAULT_KINDS = ["unauthorised_request"]
-PROBES = ["authorised_admin_requests_before_burst", "authorised_reads_before_burst", "second_server_in_process", "intruder_while_authorised_request_in_flight", "authorised_request_failed_before_burst", "state_live_session", "state_locked_session", "state_expired_externalised", "state_no_instances",
+PROBES = ["startup_failed_nothing_served", "authorised_admin_requests_before_burst", "authorised_reads_before_burst", "second_server_in_process", "intruder_while_authorised_request_in_flight", "authorised_request_failed_before_burst", "state_live_session", "state_locked_session", "state_expired_externalised", "state_no_instances",
           "authorised_twin_request_changes_state", "malformed_header_500"]
 EXHAUSTIVE = {"quick": False, "thorough": False}
 
@@ -76,6 +76,10 @@ def shapes(T):
         # header values are latin-1: credentials with characters outside ASCII are credentials like any other
         ("non_ascii", "Bearer \u00fc"),
         ("token_plus_non_ascii", "Bearer " + T + "\u00e9"),
+        # every character that is not a letter or digit replaced by a letter (what a pattern match would also accept),
+        # and by another punctuation mark
+        ("punctuation_as_letters", "Bearer " + "".join(c if c.isalnum() else "x" for c in T) + ("" if any(not c.isalnum() for c in T) else "x")),
+        ("punctuation_swapped", "Bearer " + "".join(c if c.isalnum() else "-" for c in T) + ("" if any(not c.isalnum() for c in T) else "-")),
     ]
 
 
@@ -139,7 +143,10 @@ def generate(spec):
     # bursts: 1-3 positions; position 0 = before anything exists ("no instances")
     npos = len(ops2) + 1
     bursts = sorted(set([rng.randrange(npos) for _ in range(rng.choice([1, 2, 2, 3]))] + ([0] if rng.random() < 0.25 else []) + [npos - 1]))
-    return {"property": PROPERTY, "config": {"adapter": adapter, "token": TOKEN,
+    # the token is data: characters that mean something to a regular expression, a URL or a shell are characters like any other
+    token = rng.choice([TOKEN, TOKEN, "v2.prod.7f3a9c", "a+b(c)*d", "t0k/en?x=1"])
+    broken = bool(adapter) and rng.random() < 0.12
+    return {"property": PROPERTY, "config": {"adapter": adapter, "token": token, "state_dir_missing": broken,
                                              "model": {"template": "T1", "start": 1.0, "stop": 10.0, "dt": 1.0,
                                                        "managers": {"smA": {"base": {}, "alt": {"constants": {"constant": 2.0}}}}}},
             "ops": ops2, "bursts": bursts[-3:], "limit": None}
@@ -418,7 +425,20 @@ def _history(case, with_bursts, log, res):
     responses = []
     held = []
     with ServerWorld({"model": cfg["model"], "adapter": cfg.get("adapter"), "token": cfg["token"], "threads": "auto"}, log, res) as w:
-        w.boot()
+        if cfg.get("state_dir_missing"):
+            # the state directory does not exist: a server that cannot read its external state does not come up at all -
+            # or it comes up and still wants the token
+            w.fs.dirs.discard(w.fs.root)
+            try:
+                w.boot()
+            except Exception as e:
+                if with_bursts:
+                    res.probe("startup_failed_nothing_served")
+                log.add("startup_failed", type(e).__name__)
+                return responses
+            w.fs.dirs.add(w.fs.root)
+        else:
+            w.boot()
         st = {"ids": {}}
         try:
             for n in range(len(case["ops"]) + 1):
